@@ -1,7 +1,11 @@
 """What each registered check claims (input of mk_manifest.py)."""
-from .mk_manifest import claim
-
 NOT_CLAIMED = {}
+CHECKS = {}
+
+
+def claim(pid, ref, technique, text, note, category="proof"):
+    CHECKS[pid] = dict(ref=ref, technique=technique, text=text, note=note, category=category)
+
 
 TB = ("Trusted: Lean 4.33 kernel, axioms propext/Classical.choice/Quot.sound only (audited by #print axioms each run; no native_decide/bv_decide/sorry); "
       "Mathlib lemmas; the hand-written model's faithfulness is established only by the differential correspondence run on each check "
